@@ -15,10 +15,10 @@ func init() {
 		Level: "Decides the structural bracket that isolation relies on: an append id is opened only when an appender is created and closed only by a deferred call in Commit/Rollback registered before " +
 			"any sample is committed; every in-order append that succeeds records its append id; the isolation tables are only touched under their mutexes, in a fixed lock order, and a reader's " +
 			"snapshot of open appends is taken in one critical section; the per-series ring is only touched under the series lock; every isolation state handed to a chunk reader is closed by it.",
-		Note:     "Trusted: go/packages, go/cfg, receiver-insensitive lock identification (one isolation / series object per function), the caller-holds and start-up exception tables in checker/c05.go.",
-		Covers:   "owners of newAppendID/closeAppend; defer order in Commit; txs.add before success return in the three append siblings and the appendID argument at the commit sites; lockset of isolation.{appendsOpen,appendsOpenList,readsOpen} and memSeries.txs; appendMtx→readMtx order; isolation.State single critical section; isoState creation/closing in head chunk readers; which end of the open-reads list is written and which is read.",
-		NotCover: "the ring arithmetic in memSeries.iterator (how many ids belong to which chunk), i.e. that the bracket's ids are interpreted correctly; schedules.",
-		Run:      runC05,
+		Note:           "Trusted: go/packages, go/cfg, receiver-insensitive lock identification (one isolation / series object per function), the caller-holds and start-up exception tables in checker/c05.go.",
+		Covers:         "owners of newAppendID/closeAppend; defer order in Commit; txs.add before success return in the three append siblings and the appendID argument at the commit sites; lockset of isolation.{appendsOpen,appendsOpenList,readsOpen} and memSeries.txs; appendMtx→readMtx order; isolation.State single critical section; isoState creation/closing in head chunk readers; which end of the open-reads list is written and which is read.",
+		NotCover:       "the ring arithmetic in memSeries.iterator (how many ids belong to which chunk), i.e. that the bracket's ids are interpreted correctly; schedules.",
+		Run:            runC05,
 		MinObligations: 35,
 	})
 }
@@ -116,8 +116,8 @@ func runC05(c *eng.Ctx) {
 	replay := "WAL/WBL replay and snapshot loading: series are partitioned by ref across workers and the head is not yet shared"
 	c.GuardedBy("R4", "tsdb:memSeries.txs", "tsdb:memSeries.Mutex", eng.GuardOpts{Min: 8,
 		Unlocked: map[string]string{
-			"tsdb:newMemSeries":         "constructor",
-			"tsdb:Head.appendWALFloat":  replay,
+			"tsdb:newMemSeries":            "constructor",
+			"tsdb:Head.appendWALFloat":     replay,
 			"tsdb:Head.appendWALHistogram": replay,
 			// the closures built here are the shouldEvict callback, invoked by stripeSeries.gcSeries
 			// with the series lock held (checked right below)
